@@ -20,6 +20,10 @@ def label(f):
 
 
 def declares(f, name):
+    code = getattr(f, '__code__', None)
+    if code is not None and name in code.co_varnames[:code.co_argcount + code.co_kwonlyargcount + bool(code.co_flags & 4)
+                                                     + bool(code.co_flags & 8)]:
+        return True         # the def's own parameter list, whatever __signature__ / __wrapped__ say on top of it
     for getter in (lambda: inspect.signature(f, follow_wrapped=False), lambda: S.signature(f)):
         try:
             if name in getter().parameters:
@@ -97,6 +101,13 @@ def eval_prog(ld, st):
             # the known class: merge concatenates the lists of its inputs -- exactly what the explicit
             # declaration merge(*forwards(...)) computed through the public algebra gives as well
             same = any(discovery.src_multiset(e) == discovery.src_multiset(sig) for e in exps)
+            if not same and len(pr.calls) > 1:
+                # where the expectation is not available (a callee discovery treats as unresolvable): the same class is
+                # recognised by its shape -- no callable listed more often than there are forwarding calls to merge
+                import collections
+                nfw = sum(1 for j in range(len(pr.calls)) if any(discovery.call_flags(pr, j)[:2]))
+                same = all(max(collections.Counter(discovery.fid(g) for g in lst).values()) <= nfw
+                           for k_, lst in sig.sources.items() if k_ != '+depths' and lst)
             feat = {'cause': 'concatenation-of-input-lists' if same and len(pr.calls) > 1 else 'other', 'origin': 'discovery'}
         viol(kind, detail, feat)
     depths = sig.sources.get('+depths', {})
@@ -128,6 +139,11 @@ def eval_prog(ld, st):
                     viol('depth-chain', {'problem': 'callee %s is a source but has no depth' % label(c)}, {})
             elif d <= depths.get(f, 0):
                 viol('depth-chain', {'problem': 'callee %s has depth %r, not below the wrapper (%r)' % (label(c), d, depths.get(f))}, {})
+            elif pr.route == 'helper':
+                # wrapper (0) -> the shared helper (1) -> the callee it was handed (2)
+                dh = depths.get(ld.module.APPLY)
+                if dh != 1 or d != 2:
+                    viol('depth-chain', {'problem': 'wrapper -> helper -> callee %s have depths 0, %r, %r' % (label(c), dh, d)}, {})
             elif d != 1 + shift:
                 viol('depth-chain', {'problem': 'callee %s is reached directly from the wrapper but has depth %r' % (label(c), d)}, {})
 
